@@ -48,7 +48,7 @@ bt = {b: i for i, b in enumerate(gsm_shared.BurstType)}
 d["burst_types"] = [b.name for b in gsm_shared.BurstType]
 d["train_seqs"] = [[ts.name, ts.tsc, ts.bt.name, list(ts.seq), ts.tsc_set] for ts in list(gsm_shared.TrainingSeqGMSK)]
 import rand_burst_gen
-d["dummy_burst"] = list(rand_burst_gen.RandBurstGen.db_bits)
+d["dummy_burst"] = [int(x) for x in rand_burst_gen.RandBurstGen().gen_db()]   # through the public generator method, wherever the table lives
 print(json.dumps(d))
 '''
 
